@@ -54,7 +54,7 @@ def _run_shard(args):
 def validate(module: str, traces: list[list[dict]], *, workdir: Path, constants: dict[str, str] | None = None,
              invariants=(), properties=(), shards: int = 16, first_offset: int = 1,
              timeout: float = 3600, dfs: bool = False, spec: str = "TSpec",
-             extra_constraints=()) -> BatchResult:
+             extra_constraints=(), length_of=len) -> BatchResult:
     """first_offset: 1 if TInit consumes the first event (register ends at len+1 either way)."""
     if not traces:
         return BatchResult([], 0, 0, 0.0, 0)
@@ -63,13 +63,13 @@ def validate(module: str, traces: list[list[dict]], *, workdir: Path, constants:
                       constraints=("Progress",) + tuple(extra_constraints), postcondition="Post")
     shards = max(1, min(shards, len(traces)))
     # balance by number of events
-    order = sorted(range(len(traces)), key=lambda i: -len(traces[i]))
+    order = sorted(range(len(traces)), key=lambda i: -length_of(traces[i]))
     buckets = [[] for _ in range(shards)]
     loads = [0] * shards
     for i in order:
         k = loads.index(min(loads))
         buckets[k].append(i)
-        loads[k] += len(traces[i]) + 1
+        loads[k] += length_of(traces[i]) + 1
     verdicts: dict[int, TraceVerdict] = {}
     gen = dist = 0
     wall = 0.0
@@ -120,7 +120,7 @@ def validate(module: str, traces: list[list[dict]], *, workdir: Path, constants:
             if len(prog) != len(b):
                 raise T.MachineryError(f"progress register has {len(prog)} entries for {len(b)} traces")
             for k, gi in enumerate(b):
-                want = len(traces[gi]) + 1
+                want = length_of(traces[gi]) + 1
                 if prog[k] == want:
                     verdicts[gi] = TraceVerdict(gi, True, None, None)
                 else:
@@ -128,5 +128,5 @@ def validate(module: str, traces: list[list[dict]], *, workdir: Path, constants:
                     verdicts[gi] = TraceVerdict(gi, False, stuck, None,
                                                 f"no behaviour of {module} explains event #{stuck}")
         pending = nxt
-    ev = sum(len(t) for t in traces)
+    ev = sum(length_of(t) for t in traces)
     return BatchResult([verdicts[i] for i in range(len(traces))], gen, dist, wall, ev)
